@@ -108,6 +108,9 @@ pub struct ClientSpec {
     /// send SSLRequest first (PgCat answers N without a certificate)
     #[serde(default)]
     pub ssl_probe: bool,
+    /// negotiate TLS when the pooler offers it (SSLRequest answered S)
+    #[serde(default)]
+    pub tls: bool,
     /// raw bytes to send instead of a startup packet (hex)
     #[serde(default)]
     pub raw_startup: Option<String>,
